@@ -297,6 +297,14 @@ Definition hv_add_vote (h : hvs) (v : vote) (peer : N) : hvs * bool * verr :=
     | None => (h1, false, E_none)
     end.
 
+(* HeightVoteSet.SetPeerMaj23: only for a round whose vote sets exist *)
+Definition hv_set_peer_maj23 (h : hvs) (r : Z) (ty : N) (peer : N) (b : blockid) : hvs :=
+  if negb ((ty =? PREVOTE)%N || (ty =? PRECOMMIT)%N) then h else
+  match hv_get h r ty with
+  | Some s => hv_put h r ty (vs_set_peer_maj23 s peer b)
+  | None => h
+  end.
+
 Definition prevotes (h : hvs) (r : Z) : option voteset := hv_get h r PREVOTE.
 Definition precommits (h : hvs) (r : Z) : option voteset := hv_get h r PRECOMMIT.
 
@@ -829,7 +837,8 @@ Inductive input :=
 | IProposal (p : proposal)
 | IPart (height : Z) (ph : psh) (idx : N) (decoded : option block)
 | IVote (v : vote) (peer : N)
-| ITimeout (ti : tinfo).
+| ITimeout (ti : tinfo)
+| IMaj23 (height round : Z) (ty : N) (peer : N) (b : blockid).   (* a peer's VoteSetMaj23 claim *)
 
 (* one handleMsg / handleTimeout call; a halted machine handles nothing *)
 Definition handle (s : cstate) (i : input) : cstate * list output :=
@@ -839,6 +848,10 @@ Definition handle (s : cstate) (i : input) : cstate * list output :=
   | IPart h ph idx d => add_part h ph idx d s
   | IVote v peer => add_vote v peer s
   | ITimeout ti => handle_timeout ti s
+  | IMaj23 h r ty peer b =>
+    (* consensus/reactor.go Receive, VoteSetMaj23Message: under the state lock,
+       votes.SetPeerMaj23 when the height is the current one *)
+    if h =? cs_height s then (set_votes (hv_set_peer_maj23 (cs_votes s) r ty peer b) s, []) else (s, [])
   end.
 
 (* NewState + updateToState for the first height of a run, then scheduleRound0 *)
